@@ -521,10 +521,47 @@ func genRecipe(r *rng.R) *Recipe {
 	if len(rc.Faults) > 1 {
 		rc.Kind = "content-multi"
 	}
+	if !fmp4Lead && r.Bool(1, 12) {
+		// a long MPEG-TS segment: more access units of one track than the track processor's sample queue
+		// holds (clientMPEGTSSampleQueueSize = 100), so that the stream processor is blocked in push
+		// in the middle of the segment; then a fatal content fault early in the segment, or Close()
+		n := 150 + r.Intn(151)
+		rc = longTSRecipe(n, r.Bool(1, 2), 200+r.Intn(500))
+		return rc
+	}
 	if r.Bool(1, 7) {
 		// Close() while the request at this position is in flight
 		rc.CloseAt = r.Intn(2 + len(rc.Streams)*3)
 		rc.Kind = "content-close"
+	}
+	return rc
+}
+
+// longTSRecipe: one H264 MPEG-TS track, one segment of n access units (n > 100: the stream processor
+// demuxes the whole segment at once and blocks in the track processor's push when the sample queue of 100
+// is full). jump: the time stamps jump 20 s forward after the first unit - "difference between DTS and RTC
+// is too big" from the track processor while the stream processor still has units to push. Otherwise the
+// units are 33 ms apart (a 5-10 s segment) and Close() is called closeMS after the first delivered unit.
+func longTSRecipe(n int, jump bool, closeMS int) *Recipe {
+	var ev []TSEventR
+	for i := 0; i < n; i++ {
+		ts := int64(1000)
+		switch {
+		case jump && i > 0:
+			ts = 1000 + 20*90000 + int64(i)*90
+		case !jump:
+			ts = 1000 + int64(i)*3000
+		}
+		ev = append(ev, TSEventR{Track: 0, PTS: ts, DTS: ts})
+	}
+	rc := &Recipe{Kind: "content", CloseAt: -1, Streams: []StreamR{{Container: "mpegts",
+		Tracks: []TrackR{{Codec: "h264"}}, Segments: []SegR{{Events: ev}}}}}
+	if jump {
+		rc.Faults = []string{fmt.Sprintf("long-segment:time-jump-after-first-unit:%d", n)}
+	} else {
+		rc.Kind = "content-close"
+		rc.CloseAfterDataMS = closeMS
+		rc.Faults = []string{fmt.Sprintf("long-segment:close-mid-segment:%d", n)}
 	}
 	return rc
 }
@@ -576,6 +613,13 @@ func boundaryRecipes() []*Recipe {
 	r = cloneRecipe(r)
 	r.Streams[0].DateTime = true
 	out = append(out, r)
+	// MPEG-TS segments longer than the track processor's sample queue (100): a fatal content fault early in
+	// the segment must still end the client with that error; Close() in the middle must be honoured;
+	// at the boundary (100, 101, 102 units) as well
+	for _, n := range []int{100, 101, 102, 150, 250} {
+		out = append(out, longTSRecipe(n, true, 0))
+	}
+	out = append(out, longTSRecipe(300, false, 500), longTSRecipe(160, false, 300))
 	// MPEG-TS: every stream type next to H264
 	for _, c := range tsUnsupported {
 		out = append(out, &Recipe{Kind: "content", CloseAt: -1, Faults: []string{"unsupported-es:" + c}, Streams: []StreamR{{Container: "mpegts",
